@@ -11,10 +11,10 @@ PROP = 'C14'
 MANIFEST = {
     'engine': 'E3-sock',
     'level': 'fault_enumeration',
-    'technique': 'Hypothesis-generated connection-level fault sequences (refuse, reset, black-hole until timeout, half-open after host loss, stale connection replaced, restarts, partitions, node drop/add) on 2-4 real TCPTransport objects over a '
+    'technique': 'Hypothesis-generated connection-level fault sequences (refuse, reset, black-hole until timeout, half-open after host loss, stale connection replaced and its late FIN/RST, restarts, partitions, node drop/add) on 2-4 real TCPTransport objects over a '
                  'simulated socket kernel and poller under virtual time; ghost-tagged messages; bounded-time reconnection oracle',
     'text': 'Real TCPTransport/TcpConnection/TcpServer code runs on a fake `socket` module and poller (pysyncobj.tcp_connection.socket, tcp_server.socket, monotonicTime replaced). Every message carries its true sender. '
-            'At all times: a message delivered as coming from node X was sent by X, X is a current member of the receiver (never a non-member or a node removed with dropNode); connect/disconnect notifications alternate per peer. '
+            'At all times: a message delivered as coming from node X was sent by X, X is a current member of the receiver (never a non-member or a node removed with dropNode); send() returns True only on a CONNECTED connection object. '
             'After the faults stop, within SYN timeout + connectionRetryTime + slack of virtual time every pair of members has exactly one established kernel connection that both transports\' connection maps point to, both sides were told '
             '"connected", send() returns True and a probe sent each way is delivered exactly once as coming from its sender.',
     'note': 'The kernel model (pvf/sock/kernel.py) is the trusted base: instant in-order delivery, FIN on close, RST, black-hole, half-open, keepalive only if the socket options were set, SYN timeout 63 s. Periodic sends (as SyncObj heartbeats do) drive timeout detection.',
@@ -183,7 +183,7 @@ class Harness(object):
                 self.send(a, b)
 
 
-OPS = ['tick', 'tick', 'tick', 'advance', 'advance', 'ping', 'refuse', 'bhnext', 'reset', 'blackhole', 'vanish', 'restart', 'partition', 'heal', 'drop', 'add', 'round', 'round']
+OPS = ['tick', 'tick', 'tick', 'advance', 'advance', 'ping', 'refuse', 'bhnext', 'reset', 'blackhole', 'vanish', 'restart', 'partition', 'heal', 'drop', 'add', 'round', 'round', 'lateclose', 'lateclose', 'stalemacro']
 
 
 def strategy(tier):
@@ -236,6 +236,42 @@ def run_case(case):
                 if conns:
                     kern.blackhole(conns[a % len(conns)])
                     classes.add('blackhole')
+            elif op == 'stalemacro':
+                # a connection goes silent; the dialer times out and reconnects while the acceptor still holds the old one
+                # (stale connection replaced by a new incoming one); later the old one finally gets its FIN/RST
+                conns = kern.connections()
+                if conns:
+                    cn = conns[a % len(conns)]
+                    dialer, acceptor = cn.proc, cn.peer.proc
+                    old_server_side = cn.peer
+                    kern.blackhole(cn)
+                    kern.advance(3.6)
+                    h.tick(dialer)
+                    h.send(dialer, acceptor)
+                    for _ in range(2 + b % 3):
+                        kern.advance(0.1)
+                        h.tick(dialer)
+                        h.tick(acceptor)
+                    if old_server_side.state == 'connected':
+                        if b % 2:
+                            old_server_side.err = 104
+                        else:
+                            old_server_side.eof = True
+                        classes.add('late-fin-or-rst-on-replaced-connection')
+                    for _ in range(2):
+                        kern.advance(0.1)
+                        h.tick(acceptor)
+                        h.tick(dialer)
+            elif op == 'lateclose':
+                # an orphaned socket (its peer closed or vanished while the path was black-holed) finally gets the FIN/RST
+                orphans = [x for x in kern.socks.values() if x.state == 'connected' and (x.blackholed or x.half_open) and (x.peer is None or x.peer.state == 'closed')]
+                if orphans:
+                    x = orphans[a % len(orphans)]
+                    if b % 2:
+                        x.err = 104
+                    else:
+                        x.eof = True
+                    classes.add('late-fin-or-rst-on-orphan')
             elif op == 'vanish':
                 nd = h.nodes[name]
                 if nd.alive:
